@@ -1442,3 +1442,26 @@ package query
 //@   requires n >= 1
 //@   loop 2 invariant 0 <= count && count < n && val == value.NewNull()
 //@   modifies *
+
+// CUME_DIST / PERCENT_RANK work on the peer groups as lists: group g holds, in order, the rows whose dense rank is g + 1.
+//@ func perseCumulativeGroups
+//@   property C17
+//@   requires view != nil && distinctRows(partition) && (view.sortValuesInEachRecord != nil ==> forall(k, 0, len(partition), 0 <= partition[k] && partition[k] < len(view.sortValuesInEachRecord) &&
+//@         view.sortValuesInEachRecord[partition[k]] != nil && len(view.sortValuesInEachRecord[partition[k]]) == len(view.sortValuesInEachRecord[partition[0]]) &&
+//@         forall(q, 0, len(view.sortValuesInEachRecord[partition[k]]), view.sortValuesInEachRecord[partition[k]][q] != nil && view.sortValuesInEachRecord[partition[k]][q].SerializedKey == nil)))
+//@   ensures [rows-sit-in-the-group-of-their-dense-rank] view.sortValuesInEachRecord != nil ==> forall(k, 0, len(partition),
+//@       denseOf(partition, view.sortValuesInEachRecord, k) - 1 < len(result) &&
+//@       k - opener(partition, view.sortValuesInEachRecord, k) < len(result[denseOf(partition, view.sortValuesInEachRecord, k) - 1]) &&
+//@       result[denseOf(partition, view.sortValuesInEachRecord, k) - 1][k - opener(partition, view.sortValuesInEachRecord, k)] == partition[k])
+//@   loop 1 invariant 0 <= $i && $i <= len(partition) && fresh(groups) && base(groups) != base(partition)
+//@   loop 1 invariant view.sortValuesInEachRecord != nil && $i == 0 ==> currentRank == nil && len(groups) == 0
+//@   loop 1 invariant view.sortValuesInEachRecord != nil && $i > 0 ==> len(groups) == denseOf(partition, view.sortValuesInEachRecord, $i - 1) &&
+//@       len(groups[len(groups) - 1]) == $i - opener(partition, view.sortValuesInEachRecord, $i - 1) &&
+//@       same(currentRank, view.sortValuesInEachRecord[partition[opener(partition, view.sortValuesInEachRecord, $i - 1)]])
+//@   loop 1 invariant forall(g, 0, len(groups), fresh(groups[g]) && base(groups[g]) != base(groups) && forall(h, 0, len(groups), g != h ==> base(groups[g]) != base(groups[h])))
+//@   loop 1 invariant view.sortValuesInEachRecord != nil ==> forall(k, 0, $i,
+//@       denseOf(partition, view.sortValuesInEachRecord, k) - 1 < len(groups) &&
+//@       k - opener(partition, view.sortValuesInEachRecord, k) < len(groups[denseOf(partition, view.sortValuesInEachRecord, k) - 1]) &&
+//@       groups[denseOf(partition, view.sortValuesInEachRecord, k) - 1][k - opener(partition, view.sortValuesInEachRecord, k)] == partition[k])
+//@   loop 1 modifies fresh
+//@   modifies *
